@@ -154,3 +154,61 @@ func lemmaOriginRoundTrip(p []byte) ([]byte, int) {
 	n := o.Len()
 	return o.Bytes(), n
 }
+
+// ---------------------------------------------------------------------------
+// Parser closures (C07): no contract beyond "does not panic, whatever the input".  Every
+// token the go-pars primitives hand back is unconstrained (any length, any bytes), so the
+// generated index / slice / type-assertion / strings.Repeat / Request obligations quantify
+// over all inputs.  Name$k is the k-th function literal inside Name.
+
+//@ func genbankFieldNameParser$1(state *pars.State, result *pars.Result) (err error)
+//@   prop C07
+//@   requires !isnil(state) && !isnil(result)
+//@ func genbankFieldLineParser$1(state *pars.State, result *pars.Result) (err error)
+//@   prop C07
+//@   requires !isnil(state) && !isnil(result)
+//@ func genbankFieldBodyParser$1(state *pars.State, result *pars.Result) (err error)
+//@   prop C07
+//@   requires !isnil(state) && !isnil(result)
+//@ func genbankSubfieldNameParser$1(state *pars.State, result *pars.Result) (err error)
+//@   prop C07
+//@   requires !isnil(state) && !isnil(result)
+//@ func genbankDBLinkPairParser$1(state *pars.State, result *pars.Result) (err error)
+//@   prop C07
+//@   requires !isnil(state) && !isnil(result) && !isnil(gb)
+//@ func genbankDBLinkParser$1(state *pars.State, result *pars.Result) (err error)
+//@   prop C07
+//@   requires !isnil(state) && !isnil(result)
+//@ func genbankExtraFieldParser$1(state *pars.State, result *pars.Result) (err error)
+//@   prop C07
+//@   requires !isnil(state) && !isnil(result) && !isnil(gb)
+//@ func genbankGenericFieldParser$1(state *pars.State, result *pars.Result) (err error)
+//@   prop C07
+//@   requires !isnil(state) && !isnil(result)
+//@ func genbankGenericSubfieldParser$1(state *pars.State, result *pars.Result) (err error)
+//@   prop C07
+//@   requires !isnil(state) && !isnil(result)
+//@ func genbankKeywordsParser$1(state *pars.State, result *pars.Result) (err error)
+//@   prop C07
+//@   requires !isnil(state) && !isnil(result) && !isnil(gb)
+//@ func genbankSourceParser$1(state *pars.State, result *pars.Result) (err error)
+//@   prop C07
+//@   requires !isnil(state) && !isnil(result) && !isnil(gb)
+//@ func genbankReferenceParser$1(state *pars.State, result *pars.Result) (err error)
+//@   prop C07
+//@   requires !isnil(state) && !isnil(result) && !isnil(gb)
+//@ func genbankContigParser$1(state *pars.State, result *pars.Result) (err error)
+//@   prop C07
+//@   requires !isnil(state) && !isnil(result) && !isnil(gb)
+//@ func slowGenBankOriginParser$1(state *pars.State, result *pars.Result) (err error)
+//@   prop C07
+//@   requires !isnil(state) && !isnil(result)
+//@ func makeGenbankOriginParser$2(state *pars.State, result *pars.Result) (err error)
+//@   prop C07
+//@   requires !isnil(state) && !isnil(result) && !isnil(gb)
+//@ func genbankDefinitionParser$1(result *pars.Result) (err error)
+//@   prop C07
+//@   requires !isnil(result) && !isnil(gb)
+//@ func validateOrigin(p []byte, length int, pos pars.Position) (err error)
+//@   prop C07 C16
+//@   requires 0 <= length && length <= 1099511627776 && len(p) == olen(length)
